@@ -310,5 +310,6 @@ Section WithHash.
     end.
 
   Definition get_witness_for_key_prefix (db : bdb) (node_hash key : bytes) : result (list bytes) :=
-    _get_witness (bfuel key) db node_hash (encode_to_bin key).
+    (* with an exhausted key path the descent continues down the right spine of the sub-trie *)
+    _get_witness (bfuel key + nodes_fuel) db node_hash (encode_to_bin key).
 End WithHash.
